@@ -17,6 +17,21 @@ let bytes_of_hex (h : string) : n list =
 let hex_of_bytes (l : n list) : string =
   if l = [] then "-" else String.concat "" (List.map (fun b -> Printf.sprintf "%02x" (int_of_n b)) l)
 
+module Big_int_str = struct
+  (* decimal string of an extracted N (may exceed OCaml's 63-bit int) *)
+  let to_string (x : n) : string =
+    let rec bits p = match p with XH -> [1] | XO q -> 0 :: bits q | XI q -> 1 :: bits q in
+    match x with
+    | N0 -> "0"
+    | Npos p ->
+        let bs = List.rev (bits p) in          (* most significant first *)
+        let digits = ref [0] in                 (* little-endian decimal digits *)
+        List.iter (fun b ->
+          let carry = ref b in
+          digits := List.map (fun d -> let v = 2 * d + !carry in carry := v / 10; v mod 10) !digits;
+          if !carry > 0 then digits := !digits @ [!carry]) bs;
+        String.concat "" (List.rev_map string_of_int !digits)
+end
 let b2s b = if b then "1" else "0"
 let ob2s = function Some true -> "1" | Some false -> "0" | None -> "F"
 
@@ -41,3 +56,51 @@ let () =
                                         List.fold_left (fun a t -> max a (int_of_n (struct_nest t))) 0 ts) in
                         Printf.sprintf "%d %s %s %s %d %d" (int_of_z (validate_signature_reason s)) (b2s (spec_signature s))
                           (b2s (spec_single_signature s)) p an sn)
+
+(* C01 / C11: loader *)
+let msg_hex (m : message) = hex_of_bytes (m.m_header @ m.m_body)
+let () =
+  reg "load" (fun (_mode :: chunks) ->
+    let l = List.fold_left (fun l c -> feed l (bytes_of_hex c) N0) loader_new chunks in
+    Printf.sprintf "corrupted=%s reason=%d msgs=%s" (b2s l.l_corrupted) (if l.l_corrupted then int_of_z l.l_reason else 0)
+      (if l.l_msgs = [] then "-" else String.concat "|" (List.map msg_hex l.l_msgs)));
+  reg "demarshal" (fun [h] ->
+    let d = bytes_of_hex h in
+    let need = int_of_z (bytes_needed d) in
+    match demarshal d with
+    | DemCorrupt _ -> Printf.sprintf "needed=%d corrupt" need
+    | DemMsg m -> Printf.sprintf "needed=%d msg %s" need (msg_hex m)
+    | DemIncomplete -> Printf.sprintf "needed=%d incomplete" need)
+
+(* canonical dump of a spec-decoded message: same format as harness/c/wire_h.c dump_message *)
+let text_of_bytes (l : n list) = String.concat "" (List.map (fun b -> String.make 1 (Char.chr (int_of_n b))) l)
+let rec dump_val (v : val0) : string =
+  match v with
+  | VNum (c, n) -> if int_of_n c = 104 then "h_" else Printf.sprintf "%c%s" (Char.chr (int_of_n c)) (Big_int_str.to_string n)
+  | VStr (c, s) -> Printf.sprintf "%c%s" (Char.chr (int_of_n c)) (hex_of_bytes s)
+  | VArr (_, vs) -> "a[" ^ String.concat " " (List.map dump_val vs) ^ "]"
+  | VStruct vs -> "(" ^ String.concat " " (List.map dump_val vs) ^ ")"
+  | VDictE (k, x) -> "{" ^ dump_val k ^ " " ^ dump_val x ^ "}"
+  | VVar (t, x) -> "v<" ^ text_of_bytes (print_ty t) ^ ">" ^ dump_val x ^ "</v>"
+let field_str (m : smsg) code =
+  match List.find_opt (fun f -> int_of_n f.sf_code = code) m.s_fields with
+  | Some { sf_val = VStr (_, s); _ } -> hex_of_bytes s
+  | _ -> "~"
+let dump_smsg (m : smsg) : string =
+  let fl = int_of_n m.s_flags in
+  let rs = match List.find_opt (fun f -> int_of_n f.sf_code = 5) m.s_fields with
+    | Some { sf_val = VNum (_, n); _ } -> Big_int_str.to_string n | _ -> "0" in
+  Printf.sprintf "type=%d flags=%d%d%d serial=%s rs=%s path=%s iface=%s member=%s err=%s dest=%s sender=%s sig=%s body=[%s]"
+    (int_of_n m.s_type) (fl land 1) ((fl lsr 1) land 1) ((fl lsr 2) land 1) (Big_int_str.to_string m.s_serial) rs
+    (field_str m 1) (field_str m 2) (field_str m 3) (field_str m 4) (field_str m 6) (field_str m 7)
+    (hex_of_bytes m.s_sig) (String.concat " " (List.map dump_val m.s_body))
+let () =
+  (* spec1 hex : the specification's verdict on one message occupying a prefix of the bytes *)
+  reg "spec1" (fun [h] ->
+    let d = bytes_of_hex h in
+    match spec_decode_message d with
+    | None -> "invalid"
+    | Some (m, total) ->
+        let t = int_of_n total in
+        let orig = List.filteri (fun i _ -> i < t) d in
+        Printf.sprintf "valid total=%d reenc=%s dump=%s" t (if spec_encode_message m = orig then "same" else "diff") (dump_smsg m))
